@@ -199,6 +199,11 @@ func ruleSendDump(c *Check, rule, ruleTime, ruleOrder string) {
 			badOrder++
 			c.Bad(ruleOrder, fnSendTxn+"/capture-unconditional", "shadow mode: the transaction body returns successfully without having run mainToShadow (e.g. on the receive-only exit): the transaction id is then reported as synced although local changes were not captured", c.pathPos(p), describe(c, p))
 		}
+		if len(names) == 0 && len(callsOf(p, fnReadDBI)) > 0 {
+			bad++
+			c.Bad(rule, fnSendTxn+"/listing-fresh", "a DBI is processed on a path whose DBI names do not come from lmdbenv.ReadDBINames on this transaction in this call (e.g. a listing cached from earlier): DBIs created meanwhile in the same transaction are passed over", c.pathPos(p), describe(c, p))
+			continue
+		}
 		if !strings.HasPrefix(p.End, "backedge:") || len(names) != 1 {
 			continue
 		}
